@@ -245,7 +245,7 @@ def replay_args(f, P, args):
 # --------------------------------------------------------------------------------------
 # grammar enumeration of programs in the documented restricted style
 # --------------------------------------------------------------------------------------
-CONDS = ["x > 1.0", "b", "x > 1.0 and y < 2.0", "b or x < 0.0", "not b", "any([b, x > y])", "all([b, x > y])"]
+CONDS = ["x > 1.0", "b", "x > 1.0 and y < 2.0", "b or x < 0.0", "not b", "0.0 <= x <= 1.0", "any([b, x > y])", "all([b, x > y])", "0.0 < x < y < 3.0", "not (x > y or b)"]
 EXPRS = ["x", "y + 1.0", "2.0 * x", "min(x, y)", "max(x, 0.0)", "(x if b else y)", "sum([x, y])", "out + x"]
 SIMPLE = ["x", "y + 1.0", "max(x, 0.0)"]
 
@@ -254,7 +254,7 @@ def programs(depth):
     """yield (name, source).  All take (x: float, y: float, b: bool) -> float."""
     k = 0
     head = "def {n}(x: float, y: float, b: bool) -> float:\n"
-    conds = CONDS if depth >= 3 else CONDS[:5]
+    conds = CONDS if depth >= 3 else CONDS[:6]
     exprs = EXPRS if depth >= 3 else EXPRS[:6]
 
     def emit(body):
@@ -330,31 +330,32 @@ def load_programs(depth):
     return mod, [n for n, _ in progs], d
 
 
-def run(tier):
-    ck = common.Check("C09", tier, level="translation_validation")
-    counts = {}
-    # --- every internal function (all validity periods) ---------------------------------
+def _chunk_internal(ck, names):
     allf = gt.all_internal_functions()
+    counts = {}
     n_int = 0
-    for name, f in allf.items():
-        if gt.is_skipvec(f):
-            continue
+    for name in names:
+        f = allf[name]
         d = gt.function_date_for(f)
         try:
             P, _ = gt.env(d)
-        except Exception as e:
+        except Exception as e:   # noqa: BLE001
             ck.not_encoded[name] = f"no environment at {d}: {e}"[:100]
             continue
         n_int += 1
         out = check_function(ck, name, f, P)
         counts[out] = counts.get(out, 0) + 1
         ck.nontrivial.add(("internal", name, out))
-    # --- generated programs ---------------------------------------------------------------
-    depth = 2 if tier == "quick" else 3
+    ck.extra["internal_functions"] = {"checked": n_int, **counts}
+
+
+def _chunk_programs(ck, arg):
+    depth, part, parts = arg
     mod, names, tmpd = load_programs(depth)
     pcounts = {}
     try:
-        for n in names:
+        mine = names[part::parts]
+        for n in mine:
             f = getattr(mod, n)
             out = check_function(ck, f"program {n}", f, None, is_program=True)
             pcounts[out] = pcounts.get(out, 0) + 1
@@ -362,11 +363,61 @@ def run(tier):
     finally:
         import shutil
         shutil.rmtree(tmpd, ignore_errors=True)
-    ck.extra["programs"] = n_int + len(names)
-    ck.extra["internal_functions"] = {"checked": n_int, **counts}
-    ck.extra["generated_programs"] = {"checked": len(names), "grammar_depth": depth, **pcounts}
+    ck.extra["generated_programs"] = {"checked": len(mine), **pcounts}
+
+
+def _merge_counts(ck, key):
+    """run_parallel merges dict extras by update(); counters need summing"""
+    return ck.extra.get(key, {})
+
+
+def run(tier):
+    ck = common.Check("C09", tier, level="translation_validation")
+    allf = gt.all_internal_functions()
+    names = [n for n, f in allf.items() if not gt.is_skipvec(f)]
+    depth = 2 if tier == "quick" else 3
+    J = common.JOBS
+    parts_i = [names[i::J] for i in range(J) if names[i::J]]
+    # counters of the workers are summed here (run_parallel only merges)
+    import multiprocessing
+    tot_i, tot_p = {}, {}
+    sub = common.Check("C09", tier, level="translation_validation")
+    for chunk_fn, items, tot, key in ((_chunk_internal, parts_i, tot_i, "internal_functions"),
+                                      (_chunk_programs, [(depth, k, J) for k in range(J)], tot_p, "generated_programs")):
+        args = [(ck.pid, ck.tier, ck.level, chunk_fn, it) for it in items]
+        with multiprocessing.get_context("fork").Pool(J) as pool:
+            parts = pool.map(common._run_part, args, chunksize=1)
+        for st in parts:
+            if st["error"]:
+                raise common.HarnessError(st["error"])
+            for k, v in st["extra"].pop(key, {}).items():
+                tot[k] = tot.get(k, 0) + v
+            dc = st["extra"].pop("disagreements_checked", 0)
+            ck.extra["disagreements_checked"] = ck.extra.get("disagreements_checked", 0) + dc
+            ck.obligations += st["obligations"]
+            ck.discharged += st["discharged"]
+            ck.inconclusive += st["inconclusive"]
+            ck.samples += st["samples"]
+            ck.queries += st["queries"]
+            ck.solver_time += st["solver_time"]
+            ck.not_encoded.update(st["not_encoded"])
+            ck.violations += st["violations"]
+            for kk, w in st["known_hits"]:
+                if repr(kk) not in {repr(a) for a, _ in ck.known_hits}:
+                    ck.known_hits.append((kk, w))
+            ck.nontrivial |= set(st["nontrivial"])
+            ck.functions |= set(st["functions"])
+            common.SPURIOUS.extend(st["spurious"])
+            for k2, v2 in st["extra"].items():
+                if isinstance(v2, dict):
+                    ck.extra.setdefault(k2, {}).update(v2)
+    n_int = tot_i.get("checked", 0)
+    n_prog = tot_p.get("checked", 0)
+    ck.extra["programs"] = n_int + n_prog
+    ck.extra["internal_functions"] = tot_i
+    ck.extra["generated_programs"] = {"grammar_depth": depth, **tot_p}
     ck.extra.setdefault("disagreements_checked", 0)
-    ck.bounds = {"array_length": N, "grammar_depth": depth, "internal_functions": n_int, "generated_programs": len(names),
+    ck.bounds = {"array_length": N, "grammar_depth": depth, "internal_functions": n_int, "generated_programs": n_prog,
                  "per_function_date": "one date inside each function's validity period (parameters concrete per date)"}
     ck.stubs = ["numpy.where/logical_*/maximum/minimum element-wise; numpy.sum/any/all/max/min reduce over all elements (axis=None); "
                 "array division by zero does not raise; truth value of an array raises"]
